@@ -11,7 +11,8 @@ CONSTANTS MaxFrames,       \* bound on the length of the server frame sequence
           VarModes         \* subset of {"none","empty","filtered","allunset"}: variables passed to the call
 
 \* kinds named by the property statement
-JudgedKinds == {"ack", "next", "ping", "pong", "complete", "error", "nonjson", "unknown", "notype", "nextnodata"}
+\* ("error_nopayload": an error frame whose payload is missing or an empty object -- still an error frame: multi-error)
+JudgedKinds == {"ack", "next", "ping", "pong", "complete", "error", "error_nopayload", "nonjson", "unknown", "notype", "nextnodata"}
 \* kinds that are explored but whose treatment the statement does not fix (DESIGN 8.4)
 \*   next_falsy : a next frame whose payload.data is null / empty (the code does not yield it)
 \*   echo       : a well-typed frame a server never sends (subscribe / connection_init): ignored
@@ -104,7 +105,7 @@ RecvComplete ==
   /\ UNCHANGED <<inbox, sent, yielded, cfg>>
 
 RecvError ==
-  /\ Consume /\ Cur = "error"
+  /\ Consume /\ Cur \in {"error", "error_nopayload"}
   /\ phase' = "ended" /\ result' = "multi_error"
   /\ UNCHANGED <<inbox, sent, yielded, closed, cfg>>
 
@@ -152,7 +153,7 @@ YieldsAreNextDataInOrder ==
 \* one pong per ping consumed while streaming
 OnePongPerPing == Count(sent, "pong") = Cardinality({i \in 2..pos : inbox[i] = "ping"})
 \* terminal mapping
-Enders == {"complete", "error", "nonjson", "unknown", "notype", "nextnodata"}
+Enders == {"complete", "error", "error_nopayload", "nonjson", "unknown", "notype", "nextnodata"}
 Bad(i) == (i = 1 /\ inbox[1] # "ack") \/ (i > 1 /\ inbox[i] \in Enders)
 FirstBad == IF \E i \in 1..Len(inbox) : Bad(i)
             THEN CHOOSE i \in 1..Len(inbox) : Bad(i) /\ \A j \in 1..(i - 1) : ~Bad(j)
@@ -161,7 +162,7 @@ Expected ==
   LET i == FirstBad IN
   IF i = Len(inbox) + 1 THEN "done"
   ELSE IF i = 1 THEN "invalid_message"
-  ELSE CASE inbox[i] = "complete" -> "done" [] inbox[i] = "error" -> "multi_error" [] OTHER -> "invalid_message"
+  ELSE CASE inbox[i] = "complete" -> "done" [] inbox[i] \in {"error", "error_nopayload"} -> "multi_error" [] OTHER -> "invalid_message"
 TerminalMapping == result # "running" => (result = Expected /\ pos = (IF FirstBad > Len(inbox) THEN Len(inbox) ELSE FirstBad))
 CloseOnlyOnComplete == closed => (pos >= 1 /\ inbox[pos] = "complete")
 \* the client never sends after the session ended
